@@ -173,7 +173,8 @@ def _build_timeline(m, api, kfs, timing=None, default_easing=None, merged=False)
 def mk_target(api, prefix):
     """symbolic prior target contents"""
     vals = [sym(f'{prefix}_{n}', ty) for n, ty in api.target_fields]
-    return Agg(api.s, vals), vals
+    # (the target gets its own field list: `vals` must keep describing the PRIOR contents after update() stored into the target)
+    return Agg(api.s, list(vals)), vals
 
 
 def machine_for(prog, enums, abstract_pos=None, uf_lerp=True, uf_ease=True, **kw):
